@@ -15,6 +15,7 @@ from concurrent.futures import ThreadPoolExecutor
 from .core import HarnessError, Violation, HOME
 
 SAN = ['-fsanitize=address', '-fno-omit-frame-pointer']
+LAST_RUN = None
 
 
 def cxxflags(ctx, subdir='src'):
@@ -184,6 +185,8 @@ def run(ctx, exe, args=(), shards=None, deadline_s=None, cwd=None):
         if rep['crashes'] and err:
             m['stderr'] += err
     m['samples'] = m['samples'][:8]
+    global LAST_RUN
+    LAST_RUN = m          # core.main() falls back on it when a vacuity guard fires on a run that has failures
     return m
 
 
